@@ -832,7 +832,8 @@ class CFG:
             other = other.to_deterministic()
         else:
             raise NotImplementedError
-        if other.is_empty():
+        if other.is_empty() or self._start_symbol is None:
+            # One of the languages is empty
             return CFG()
         generate_empty = self.contains([]) and other.accepts([])
         cfg = self.to_normal_form()
